@@ -1,4 +1,5 @@
 import Qx.Xml.Parse
+import Qx.Xml.Writer
 /-!
 Helper lemmas for the XML text layer (tier A of C01).  The property theorems are in
 `Qx/Props/C01Xml.lean`.
@@ -304,49 +305,94 @@ theorem parseElem_open (n : Str) (as : List (Str × Str)) (hn : okName n = true)
   simp only [if_true]
   cases parseKids f inner <;> rfl
 
-/-! ### element content -/
+/-! ### element content
+
+Stated for `WNode` (text nodes marked with the call that wrote them, Qx/Xml/Writer.lean); the
+statements about `render` are the special case `WNode.plain`. -/
 
 theorem flushText_nil : flushText [] = [] := rfl
 
-theorem filter_legal_of_escText_nil {p : Str} (h : escText p = []) : p.filter legalChar = [] := by
-  have := unescGo_flatMap false p
-  rw [show p.flatMap (escChar false) = escText p from rfl, h] at this
+/-- the characters of a pending run, as they are read back -/
+def plainOf (p : List (Bool × Char)) : Str := (p.map (·.2)).filter legalChar
+
+@[simp] theorem escMarked_nil : escMarked [] = [] := rfl
+theorem escMarked_cons (x : Bool × Char) (p : List (Bool × Char)) :
+    escMarked (x :: p) = escChar x.1 x.2 ++ escMarked p := by simp [escMarked]
+theorem escMarked_append (a b : List (Bool × Char)) : escMarked (a ++ b) = escMarked a ++ escMarked b := by
+  simp [escMarked]
+theorem plainOf_append (a b : List (Bool × Char)) : plainOf (a ++ b) = plainOf a ++ plainOf b := by
+  simp [plainOf]
+theorem plainOf_markText (b : Bool) (s : Str) : plainOf (markText b s) = s.filter legalChar := by
+  simp [plainOf, markText, Function.comp_def]
+theorem plainOf_cons (x : Bool × Char) (p : List (Bool × Char)) :
+    plainOf (x :: p) = (if legalChar x.2 then [x.2] else []) ++ plainOf p := by
+  simp only [plainOf, List.map_cons]; exact filter_legal_cons _ _
+
+theorem escMarked_markText_false (s : Str) : escMarked (markText false s) = escText s := by
+  induction s with
+  | nil => rfl
+  | cons c s ih =>
+    have : markText false (c :: s) = (false, c) :: markText false s := by simp [markText]
+    rw [this, escMarked_cons, ih, escText_cons]
+
+theorem escMarked_no_meta (p : List (Bool × Char)) (x : Char) (hx : x = '<' ∨ x = '>' ∨ x = '"') :
+    x ∉ escMarked p := by
+  intro h
+  rcases List.mem_flatMap.mp h with ⟨c, _, hc⟩
+  exact escChar_no_meta c.1 c.2 x hx hc
+
+theorem unescGo_escMarked (p : List (Bool × Char)) : unescGo 0 (escMarked p) = plainOf p := by
+  induction p with
+  | nil => simp [unescGo, plainOf]
+  | cons x p ih => rw [escMarked_cons, unescGo_escChar, ih, plainOf_cons]
+
+theorem unescStrict_escMarked (p : List (Bool × Char)) : unescStrict (escMarked p) = some (plainOf p) := by
+  show unescStrictGo 0 (escMarked p) = some (plainOf p)
+  induction p with
+  | nil => simp [unescStrictGo, plainOf]
+  | cons x p ih => rw [escMarked_cons, unescStrictGo_escChar x.1 x.2 _ _ ih, plainOf_cons]
+
+/-- what `writeXmlTextElement(w, name, value)` writes is read back like what `writeCharacters` writes -/
+theorem unesc_escTextCr (s : Str) : unesc (escTextCr s) = s.filter legalChar := by
+  show unescGo 0 (escMarked (markText true s)) = _
+  rw [unescGo_escMarked, plainOf_markText]
+
+theorem plainOf_of_escMarked_nil {p : List (Bool × Char)} (h : escMarked p = []) : plainOf p = [] := by
+  have := unescGo_escMarked p
+  rw [h] at this
   simpa [unescGo] using this.symm
 
+theorem spanW_escMarked (p : List (Bool × Char)) (b : Str) :
+    (escMarked p ++ '<' :: b).spanW (fun x => x != '<') = (escMarked p, '<' :: b) := by
+  apply span_append_stop
+  · intro x hx
+    have : x ≠ '<' := fun e => escMarked_no_meta p x (by simp [e]) hx
+    simpa using this
+  · simp
+
 /-- a non-empty run of character data followed by markup -/
-theorem parseKids_text (p : Str) (hne : escText p ≠ []) (tail : Str) (f : Nat) :
-    parseKids (f + 1) (escText p ++ '<' :: tail) =
+theorem parseKids_text (p : List (Bool × Char)) (hne : escMarked p ≠ []) (tail : Str) (f : Nat) :
+    parseKids (f + 1) (escMarked p ++ '<' :: tail) =
       match parseKids f ('<' :: tail) with
-      | some q => some (flushText (p.filter legalChar) ++ q.1, q.2)
+      | some q => some (flushText (plainOf p) ++ q.1, q.2)
       | none => none := by
-  obtain ⟨c0, r0, he⟩ : ∃ c0 r0, escText p = c0 :: r0 := by
-    cases h : escText p with
+  obtain ⟨c0, r0, he⟩ : ∃ c0 r0, escMarked p = c0 :: r0 := by
+    cases h : escMarked p with
     | nil => exact absurd h hne
     | cons c r => exact ⟨c, r, rfl⟩
   have hc0 : c0 ≠ '<' := by
     intro e
-    exact flatMap_escChar_no_meta false p '<' (by simp) (by
-      show '<' ∈ escText p
-      rw [he, e]; simp)
-  have e1 : escText p ++ '<' :: tail = c0 :: (r0 ++ '<' :: tail) := by rw [he]; rfl
-  have e2 : (c0 :: (r0 ++ '<' :: tail)).spanW (fun x => x != '<') = (escText p, '<' :: tail) := by
-    rw [← e1]; exact spanW_escText p tail
-  have e3 : hasCdataEnd (escText p) = false :=
-    hasCdataEnd_of_no_gt _ (flatMap_escChar_no_meta false p '>' (by simp))
+    exact escMarked_no_meta p '<' (by simp) (by rw [he, e]; simp)
+  have e1 : escMarked p ++ '<' :: tail = c0 :: (r0 ++ '<' :: tail) := by rw [he]; rfl
+  have e2 : (c0 :: (r0 ++ '<' :: tail)).spanW (fun x => x != '<') = (escMarked p, '<' :: tail) := by
+    rw [← e1]; exact spanW_escMarked p tail
+  have e3 : hasCdataEnd (escMarked p) = false :=
+    hasCdataEnd_of_no_gt _ (escMarked_no_meta p '>' (by simp))
   rw [e1]
   simp only [parseKids, hc0, if_false]
   rw [e2]
-  simp only [e3, unescStrict_escText, flushText]
+  simp only [e3, unescStrict_escMarked, flushText]
   cases parseKids f ('<' :: tail) <;> simp
-
-/-- pending character data (possibly none) followed by markup: at most one step of the parser -/
-theorem parseKids_pending (p : Str) (tail : Str) (f : Nat) (r : List Node × Str)
-    (h : parseKids f ('<' :: tail) = some r) :
-    parseKids (f + 1) (escText p ++ '<' :: tail) = some (flushText (p.filter legalChar) ++ r.1, r.2)
-    ∨ (escText p = [] ∧ p.filter legalChar = []) := by
-  by_cases hne : escText p = []
-  · exact Or.inr ⟨hne, filter_legal_of_escText_nil hne⟩
-  · left; rw [parseKids_text p hne, h]
 
 theorem parseKids_close (rest : Str) (f : Nat) : parseKids (f + 1) ('<' :: '/' :: rest) = some ([], rest) := by
   simp [parseKids]
@@ -371,6 +417,16 @@ theorem okName_head {n : Str} (h : okName n = true) : ∃ d r, n = d :: r ∧ d 
     rintro rfl
     simp [okName, isNameStart] at h
 
+theorem renderW_elem_nil (n : Str) (as : List (Str × Str)) :
+    renderW (.elem n as []) = '<' :: (n ++ (renderAttrs as ++ ['/', '>'])) := by
+  simp [renderW]
+theorem renderW_elem_cons (n : Str) (as : List (Str × Str)) (k : WNode) (ks : List WNode) :
+    renderW (.elem n as (k :: ks)) =
+      '<' :: (n ++ (renderAttrs as ++ '>' :: (renderWList (k :: ks) ++ '<' :: '/' :: (n ++ ['>'])))) := by
+  simp [renderW, renderWList]
+theorem renderWList_cons (k : WNode) (ks : List WNode) : renderWList (k :: ks) = renderW k ++ renderWList ks := rfl
+theorem renderW_text (b : Bool) (s : Str) : renderW (.text b s) = escMarked (markText b s) := by simp [renderW]
+
 theorem render_elem_nil (n : Str) (as : List (Str × Str)) :
     render (.elem n as []) = '<' :: (n ++ (renderAttrs as ++ ['/', '>'])) := by
   simp [render]
@@ -385,109 +441,157 @@ theorem view_elem (n : Str) (as : List (Str × Str)) (ks : List Node) :
     view (.elem n as ks) = .elem n (as.map fun kv => (kv.1, kv.2.filter legalChar)) (viewKids [] ks) := by
   simp [view]
 
+theorem erase_elem (n : Str) (as : List (Str × Str)) (ks : List WNode) :
+    WNode.erase (.elem n as ks) = .elem n as (WNode.eraseList ks) := by simp [WNode.erase]
+
 theorem namesOK_elem {n : Str} {as : List (Str × Str)} {ks : List Node} (h : namesOK (.elem n as ks) = true) :
     okName n = true ∧ (∀ kv ∈ as, okName kv.1 = true) ∧ namesOKList ks = true := by
   simp only [namesOK, Bool.and_eq_true, List.all_eq_true] at h
   exact ⟨h.1.1, h.1.2, h.2⟩
 
 mutual
-  theorem parseElem_render (n : Str) (as : List (Str × Str)) (ks : List Node)
-      (h : namesOK (.elem n as ks) = true) (rest : Str) (f : Nat)
-      (hf : (render (.elem n as ks)).length ≤ f) :
-      parseElem f (render (.elem n as ks) ++ rest) = some (view (.elem n as ks), rest) := by
+  theorem parseElem_renderW (n : Str) (as : List (Str × Str)) (ks : List WNode)
+      (h : namesOK (WNode.erase (.elem n as ks)) = true) (rest : Str) (f : Nat)
+      (hf : (renderW (.elem n as ks)).length ≤ f) :
+      parseElem f (renderW (.elem n as ks) ++ rest) = some (view (WNode.erase (.elem n as ks)), rest) := by
+    rw [erase_elem] at h ⊢
     obtain ⟨hn, has, hks⟩ := namesOK_elem h
     cases ks with
     | nil =>
-      obtain ⟨f, rfl⟩ : ∃ g, f = g + 1 := ⟨f - 1, by rw [render_elem_nil] at hf; simp at hf; omega⟩
-      rw [render_elem_nil, view_elem]
+      obtain ⟨f, rfl⟩ : ∃ g, f = g + 1 := ⟨f - 1, by rw [renderW_elem_nil] at hf; simp at hf; omega⟩
+      rw [renderW_elem_nil, view_elem]
       have := parseElem_empty n as hn has rest f
-      simpa [viewKids, flushText_nil, List.append_assoc] using this
+      simpa [WNode.eraseList, viewKids, flushText_nil, List.append_assoc] using this
     | cons k ks =>
-      rw [render_elem_cons] at hf ⊢
+      rw [renderW_elem_cons] at hf ⊢
       obtain ⟨f, rfl⟩ : ∃ g, f = g + 1 := ⟨f - 1, by simp at hf; omega⟩
-      have hk := parseKids_render (k :: ks) hks [] (n ++ '>' :: rest) f (by simp at hf ⊢; omega)
-      have e : ('<' :: (n ++ (renderAttrs as ++ '>' :: (renderList (k :: ks) ++ '<' :: '/' :: (n ++ ['>']))))) ++ rest
-          = '<' :: (n ++ (renderAttrs as ++ '>' :: (escText [] ++ (renderList (k :: ks) ++ '<' :: '/' :: (n ++ '>' :: rest))))) := by
+      have hk := parseKids_renderW (k :: ks) hks [] (n ++ '>' :: rest) f (by simp at hf ⊢; omega)
+      have e : ('<' :: (n ++ (renderAttrs as ++ '>' :: (renderWList (k :: ks) ++ '<' :: '/' :: (n ++ ['>']))))) ++ rest
+          = '<' :: (n ++ (renderAttrs as ++ '>' :: (escMarked [] ++ (renderWList (k :: ks) ++ '<' :: '/' :: (n ++ '>' :: rest))))) := by
         simp [List.append_assoc]
       rw [e, parseElem_open n as hn has, hk, view_elem]
-      simp [spanW_name n hn '>' (by decide) rest]
+      simp [spanW_name n hn '>' (by decide) rest, plainOf]
   termination_by 2 * sizeOf ks + 1
   decreasing_by all_goals (subst_vars; simp_wf)
-  theorem parseKids_render (ks : List Node) (h : namesOKList ks = true)
-      (p rest : Str) (f : Nat)
-      (hf : (escText p).length + (renderList ks).length + 1 ≤ f) :
-      parseKids f (escText p ++ (renderList ks ++ '<' :: '/' :: rest)) =
-        some (viewKids (p.filter legalChar) ks, rest) := by
+  theorem parseKids_renderW (ks : List WNode) (h : namesOKList (WNode.eraseList ks) = true)
+      (p : List (Bool × Char)) (rest : Str) (f : Nat)
+      (hf : (escMarked p).length + (renderWList ks).length + 1 ≤ f) :
+      parseKids f (escMarked p ++ (renderWList ks ++ '<' :: '/' :: rest)) =
+        some (viewKids (plainOf p) (WNode.eraseList ks), rest) := by
     cases ks with
     | nil =>
-      simp only [renderList, List.nil_append, viewKids]
+      simp only [renderWList, List.nil_append, WNode.eraseList, viewKids]
       obtain ⟨f, rfl⟩ : ∃ g, f = g + 1 := ⟨f - 1, by omega⟩
-      by_cases hne : escText p = []
-      · rw [hne, filter_legal_of_escText_nil hne]; simp [parseKids_close, flushText_nil]
+      by_cases hne : escMarked p = []
+      · rw [hne, plainOf_of_escMarked_nil hne]; simp [parseKids_close, flushText_nil]
       · obtain ⟨f, rfl⟩ : ∃ g, f = g + 1 := ⟨f - 1, by
-          have : (escText p).length ≠ 0 := by simpa using hne
-          simp [renderList] at hf; omega⟩
+          have : (escMarked p).length ≠ 0 := by simpa using hne
+          simp [renderWList] at hf; omega⟩
         rw [parseKids_text p hne, parseKids_close]; simp
     | cons k ks =>
-      simp only [namesOKList, Bool.and_eq_true] at h
+      simp only [WNode.eraseList, namesOKList, Bool.and_eq_true] at h
       cases k with
-      | text s =>
-        have e : escText p ++ (renderList (Node.text s :: ks) ++ '<' :: '/' :: rest)
-            = escText (p ++ s) ++ (renderList ks ++ '<' :: '/' :: rest) := by
-          simp [renderList_cons, render_text, escText_append, List.append_assoc]
+      | text b s =>
+        have e : escMarked p ++ (renderWList (WNode.text b s :: ks) ++ '<' :: '/' :: rest)
+            = escMarked (p ++ markText b s) ++ (renderWList ks ++ '<' :: '/' :: rest) := by
+          simp [renderWList_cons, renderW_text, escMarked_append, List.append_assoc]
         rw [e]
-        have := parseKids_render ks h.2 (p ++ s) rest f (by
-          simp [renderList_cons, render_text, escText_append] at hf ⊢; omega)
-        simpa [viewKids, List.filter_append] using this
+        have := parseKids_renderW ks h.2 (p ++ markText b s) rest f (by
+          simp [renderWList_cons, renderW_text, escMarked_append] at hf ⊢; omega)
+        simpa [WNode.eraseList, WNode.erase, viewKids, plainOf_append, plainOf_markText] using this
       | elem n as ks' =>
-        obtain ⟨hn, _, _⟩ := namesOK_elem h.1
+        have h1' := h.1
+        rw [erase_elem] at h1'
+        obtain ⟨hn, _, _⟩ := namesOK_elem h1'
         obtain ⟨d, r, rfl, hd⟩ := okName_head hn
         -- the element itself and what follows it
-        have hlen : 1 ≤ (render (.elem (d :: r) as ks')).length := by
-          cases ks' <;> simp [render]
-        have step : ∀ g, (render (.elem (d :: r) as ks')).length + (renderList ks).length + 1 ≤ g + 1 →
-            parseKids (g + 1) (render (.elem (d :: r) as ks') ++ (renderList ks ++ '<' :: '/' :: rest))
-              = some (view (.elem (d :: r) as ks') :: viewKids [] ks, rest) := by
+        have hlen : 1 ≤ (renderW (.elem (d :: r) as ks')).length := by
+          cases ks' <;> simp [renderW]
+        have step : ∀ g, (renderW (.elem (d :: r) as ks')).length + (renderWList ks).length + 1 ≤ g + 1 →
+            parseKids (g + 1) (renderW (.elem (d :: r) as ks') ++ (renderWList ks ++ '<' :: '/' :: rest))
+              = some (view (WNode.erase (.elem (d :: r) as ks')) :: viewKids [] (WNode.eraseList ks), rest) := by
           intro g hg
-          have h1 := parseElem_render (d :: r) as ks' h.1 (renderList ks ++ '<' :: '/' :: rest) g (by omega)
-          have h2 := parseKids_render ks h.2 [] rest g (by simp; omega)
-          obtain ⟨s2, es⟩ : ∃ s2, render (.elem (d :: r) as ks') ++ (renderList ks ++ '<' :: '/' :: rest) = '<' :: d :: s2 := by
-            cases ks' <;> simp [render]
+          have h1 := parseElem_renderW (d :: r) as ks' h.1 (renderWList ks ++ '<' :: '/' :: rest) g (by omega)
+          have h2 := parseKids_renderW ks h.2 [] rest g (by simp; omega)
+          obtain ⟨s2, es⟩ : ∃ s2, renderW (.elem (d :: r) as ks') ++ (renderWList ks ++ '<' :: '/' :: rest) = '<' :: d :: s2 := by
+            cases ks' <;> simp [renderW]
           rw [es] at h1 ⊢
           rw [parseKids_elem_step d s2 hd, h1]
-          simp at h2
+          simp [plainOf] at h2
           simp [h2]
         obtain ⟨f, rfl⟩ : ∃ g, f = g + 1 := ⟨f - 1, by omega⟩
-        have e : escText p ++ (renderList (Node.elem (d :: r) as ks' :: ks) ++ '<' :: '/' :: rest)
-            = escText p ++ (render (.elem (d :: r) as ks') ++ (renderList ks ++ '<' :: '/' :: rest)) := by
-          simp [renderList_cons, List.append_assoc]
+        have e : escMarked p ++ (renderWList (WNode.elem (d :: r) as ks' :: ks) ++ '<' :: '/' :: rest)
+            = escMarked p ++ (renderW (.elem (d :: r) as ks') ++ (renderWList ks ++ '<' :: '/' :: rest)) := by
+          simp [renderWList_cons, List.append_assoc]
         rw [e]
-        simp only [viewKids]
-        by_cases hne : escText p = []
-        · rw [hne, filter_legal_of_escText_nil hne, flushText_nil]
+        have ev : viewKids (plainOf p) (WNode.eraseList (WNode.elem (d :: r) as ks' :: ks))
+            = flushText (plainOf p) ++ view (WNode.erase (.elem (d :: r) as ks')) :: viewKids [] (WNode.eraseList ks) := by
+          simp [WNode.eraseList, WNode.erase, viewKids]
+        rw [ev]
+        by_cases hne : escMarked p = []
+        · rw [hne, plainOf_of_escMarked_nil hne, flushText_nil]
           simp only [List.nil_append]
-          exact step f (by simp [hne, renderList_cons] at hf; omega)
+          exact step f (by simp [hne, renderWList_cons] at hf; omega)
         · obtain ⟨f, rfl⟩ : ∃ g, f = g + 1 := ⟨f - 1, by
-            have : (escText p).length ≠ 0 := by simpa using hne
+            have : (escMarked p).length ≠ 0 := by simpa using hne
             omega⟩
-          obtain ⟨s2, es⟩ : ∃ s2, render (.elem (d :: r) as ks') ++ (renderList ks ++ '<' :: '/' :: rest) = '<' :: s2 := by
-            cases ks' <;> simp [render]
+          obtain ⟨s2, es⟩ : ∃ s2, renderW (.elem (d :: r) as ks') ++ (renderWList ks ++ '<' :: '/' :: rest) = '<' :: s2 := by
+            cases ks' <;> simp [renderW]
           have hs := step f (by
-            have : (escText p).length ≠ 0 := by simpa using hne
-            simp [renderList_cons] at hf; omega)
+            have : (escMarked p).length ≠ 0 := by simpa using hne
+            simp [renderWList_cons] at hf; omega)
           rw [es] at hs ⊢
           rw [parseKids_text p hne, hs]
   termination_by 2 * sizeOf ks
   decreasing_by all_goals (subst_vars; simp_wf; try omega)
 end
 
+/-- character level, whole document, either way of writing text: the parser reads back what the writer wrote -/
+theorem parse_renderW_view (n : Str) (as : List (Str × Str)) (ks : List WNode)
+    (h : namesOK (WNode.erase (.elem n as ks)) = true) :
+    parse (renderW (.elem n as ks)) = some (view (WNode.erase (.elem n as ks))) := by
+  have := parseElem_renderW n as ks h [] ((renderW (.elem n as ks)).length + 1) (by omega)
+  rw [List.append_nil] at this
+  simp [parse, this]
+
+mutual
+  theorem renderW_plain (t : Node) : renderW (WNode.plain t) = render t := by
+    cases t with
+    | text s => simp [WNode.plain, renderW, render, escMarked_markText_false]
+    | elem n as ks =>
+      cases ks with
+      | nil => simp [WNode.plain, WNode.plainList, renderW, render]
+      | cons k ks =>
+        have h1 := renderW_plain k
+        have h2 := renderWList_plain ks
+        simp [WNode.plain, WNode.plainList, renderW, render, h1, h2]
+  theorem renderWList_plain (ks : List Node) : renderWList (WNode.plainList ks) = renderList ks := by
+    cases ks with
+    | nil => rfl
+    | cons k ks => simp [WNode.plainList, renderWList, renderList, renderW_plain k, renderWList_plain ks]
+end
+
+mutual
+  theorem erase_plain (t : Node) : (WNode.plain t).erase = t := by
+    cases t with
+    | text s => simp [WNode.plain, WNode.erase]
+    | elem n as ks => simp [WNode.plain, WNode.erase, eraseList_plainList ks]
+  theorem eraseList_plainList (ks : List Node) : WNode.eraseList (WNode.plainList ks) = ks := by
+    cases ks with
+    | nil => rfl
+    | cons k ks => simp [WNode.plainList, WNode.eraseList, erase_plain k, eraseList_plainList ks]
+end
+
 /-- character level, whole document: the parser reads back what the writer wrote -/
 theorem parse_render_view (n : Str) (as : List (Str × Str)) (ks : List Node)
     (h : namesOK (.elem n as ks) = true) :
     parse (render (.elem n as ks)) = some (view (.elem n as ks)) := by
-  have := parseElem_render n as ks h [] ((render (.elem n as ks)).length + 1) (by omega)
-  rw [List.append_nil] at this
-  simp [parse, this]
+  have e1 := renderW_plain (.elem n as ks)
+  have e2 := erase_plain (.elem n as ks)
+  simp only [WNode.plain] at e1 e2
+  have := parse_renderW_view n as (WNode.plainList ks) (by rw [e2]; exact h)
+  rw [e1, e2] at this
+  exact this
 
 /-! ### `view` on well-formed trees, and what it never touches -/
 
@@ -584,6 +688,94 @@ mutual
         rw [← view_elem, skeleton_view, skeletonList_viewKids [] ks]
 end
 
+/-! ### a reader with line-end normalisation (XML 1.0 §2.11) -/
+
+theorem normEolGo_of_no_cr (l : Str) (h : '\r' ∉ l) : normEolGo false l = l := by
+  induction l with
+  | nil => rfl
+  | cons c r ih =>
+    have hc : c ≠ '\r' := fun e => h (by simp [e])
+    have hr : '\r' ∉ r := fun m => h (by simp [m])
+    simp [normEolGo, hc, ih hr]
+
+theorem cr_mem_escChar {a : Bool} {c : Char} (h : '\r' ∈ escChar a c) : a = false ∧ c = '\r' := by
+  rcases escChar_cases a c with ⟨rfl, e⟩ | ⟨rfl, e⟩ | ⟨rfl, e⟩ | ⟨rfl, e⟩ | ⟨rfl, _, e⟩ | ⟨rfl, _, e⟩ | ⟨rfl, ha, e⟩ | ⟨hl, _, _, _, _, e⟩ | ⟨hl, e⟩
+  all_goals rw [e] at h
+  all_goals first | (exfalso; revert h; decide) | skip
+  · simp at h
+    subst h
+    cases a with
+    | false => exact ⟨rfl, rfl⟩
+    | true => exfalso; simp [escChar] at e
+
+theorem no_cr_escAttr (v : Str) : '\r' ∉ escAttr v := by
+  intro h
+  rcases List.mem_flatMap.mp h with ⟨c, _, hc⟩
+  exact absurd (cr_mem_escChar hc).1 (by simp)
+
+theorem no_cr_escMarked_markText (b : Bool) (s : Str) (h : (b || !s.contains '\r') = true) :
+    '\r' ∉ escMarked (markText b s) := by
+  intro hm
+  rcases List.mem_flatMap.mp hm with ⟨x, hx, hc⟩
+  obtain ⟨h1, h2⟩ := cr_mem_escChar hc
+  simp only [markText, List.mem_map] at hx
+  obtain ⟨c, hcs, rfl⟩ := hx
+  simp only at h1 h2
+  subst h2
+  cases b with
+  | true => simp at h1
+  | false =>
+    simp at h
+    exact h hcs
+
+theorem no_cr_name {n : Str} (h : okName n = true) : '\r' ∉ n := by
+  intro hm
+  have := okName_all h _ hm
+  revert this; decide
+
+theorem no_cr_renderAttrs (as : List (Str × Str)) (h : ∀ kv ∈ as, okName kv.1 = true) : '\r' ∉ renderAttrs as := by
+  induction as with
+  | nil => simp [renderAttrs]
+  | cons kv as ih =>
+    obtain ⟨k, v⟩ := kv
+    have hk := no_cr_name (h (k, v) (by simp))
+    have hv := no_cr_escAttr v
+    have ih' := ih (fun kv hkv => h kv (by simp [hkv]))
+    simp [renderAttrs, hk, hv, ih']
+
+mutual
+  theorem no_cr_renderW (w : WNode) (hn : namesOK w.erase = true) (hc : crSafe w = true) : '\r' ∉ renderW w := by
+    cases w with
+    | text b s => rw [renderW_text]; exact no_cr_escMarked_markText b s (by simpa [crSafe] using hc)
+    | elem n as ks =>
+      rw [erase_elem] at hn
+      obtain ⟨h1, h2, h3⟩ := namesOK_elem hn
+      have a1 := no_cr_name h1
+      have a2 := no_cr_renderAttrs as h2
+      cases ks with
+      | nil => simp [renderW, a1, a2]
+      | cons k ks =>
+        have a3 := no_cr_renderWList (k :: ks) h3 (by simpa [crSafe] using hc)
+        rw [renderW_elem_cons]
+        simp [a1, a2, a3]
+  theorem no_cr_renderWList (ks : List WNode) (hn : namesOKList (WNode.eraseList ks) = true)
+      (hc : crSafeList ks = true) : '\r' ∉ renderWList ks := by
+    cases ks with
+    | nil => simp [renderWList]
+    | cons k ks =>
+      simp only [WNode.eraseList, namesOKList, Bool.and_eq_true] at hn
+      simp only [crSafeList, Bool.and_eq_true] at hc
+      have a1 := no_cr_renderW k hn.1 hc.1
+      have a2 := no_cr_renderWList ks hn.2 hc.2
+      simp [renderWList, a1, a2]
+end
+
+theorem parseStd_renderW_view (n : Str) (as : List (Str × Str)) (ks : List WNode)
+    (h : namesOK (WNode.erase (.elem n as ks)) = true) (hc : crSafe (.elem n as ks) = true) :
+    parseStd (renderW (.elem n as ks)) = some (view (WNode.erase (.elem n as ks))) := by
+  unfold parseStd normEol
+  rw [normEolGo_of_no_cr _ (no_cr_renderW _ h hc)]
+  exact parse_renderW_view n as ks h
 /-! ### for composition with the codec tier -/
 
 theorem wellFormed_text (s : Str) : wellFormed (.text s) = xmlSafeText s := by
